@@ -40,9 +40,8 @@ def requiredDunders : List String :=
    "__truediv__", "__mod__", "__pow__", "__and__", "__or__", "__xor__", "__invert__", "__neg__"]
 
 /-- apply the Python operation directly, in state `s`; `none`: not an operation of
-    the C02 fragment.  A call passes its `list` / `tuple` / `dict` arguments by
-    value (`passCall`; see `c02_call_by_value_counterexample` for why the
-    property cannot be stated without it). -/
+    the C02 fragment.  A call is a plain Python call: the callee receives the very
+    objects its arguments evaluated to. -/
 def pyApply {V S} (prim : Prim V S) (kind : Kind) (s : S) (cur : V) (av : AV V) :
     Option (Except PyExc V × S) :=
   match kind, av with
@@ -50,11 +49,7 @@ def pyApply {V S} (prim : Prim V S) (kind : Kind) (s : S) (cur : V) (av : AV V) 
   | .getitem, .val a => some (prim.getitem s cur a)
   | .bin b, .val a => some (prim.bin b s cur a)
   | .un u, .val _ => some (prim.un u s cur)
-  | .call, .call args kwargs =>
-    some (prim.call (prim.passCall s cur args kwargs).2
-      (prim.passCall s cur args kwargs).1.1
-      (prim.passCall s cur args kwargs).1.2.1
-      (prim.passCall s cur args kwargs).1.2.2)
+  | .call, .call args kwargs => some (prim.call s cur args kwargs)
   | _, _ => none
 
 inductive RefErr where
@@ -269,8 +264,14 @@ def kindsOk (F : Facts) : Bool :=
     (docCaught kind).all (fun n => caughtBy F (caughtOfKind F kind) ⟨n⟩) &&
     (kind != .call || (caughtOfKind F kind).isEmpty))
 
+/-- the one op character the loop of `_t_eval` exempts from `arg_val`
+    (`if op != '(':`) is exactly the character of the call branch: the recorded
+    `(args, kwargs)` of a call reach `Call` unevaluated, and nothing else does -/
+def callCharOk (F : Facts) : Bool :=
+  F.dispatch.all (fun en => (Kind.ofString en.2.1 == .call) == (en.1 == callChar))
+
 def WF (F : Facts) : Bool :=
-  noDroppedOp F && kindsOk F &&
+  noDroppedOp F && kindsOk F && callCharOk F &&
   requiredDunders.all (fun d => (charOf F d).isSome) &&
   F.partIdx == ["i // 2"] &&
   (F.exc.mro "PathAccessError").contains "GlomError"
